@@ -11,9 +11,10 @@ package app_test
 // compared after every op.  The first history of every run is a fixed script (the witness of the recorded
 // findings), so the known-finding lines are stable and disappear only when the behaviour changes.
 //
-// Modelled regime (the generator stays inside it; see Props/C11.lean header): validators stay bonded and
-// un-slashed (exchange rate 1) and their stake below 2^63 power units, no staking rewards are allocated (no
-// BeginBlocker of distribution/mint is run: the epoch is SuperfluidKeeper.AfterEpochStartBeginBlock called
+// Modelled regime (the generator stays inside it; see Props/C11.lean header): validators stay bonded (slashes, also
+// the 100 % slash taken together with the top-ups of the locks it empties, and the 2^63 power-unit threshold of
+// staking's power index are modelled: classes slash / mixed / fault, superfluid_fault_test.go), no staking rewards are
+// allocated (no BeginBlocker of distribution/mint is run: the epoch is SuperfluidKeeper.AfterEpochStartBeginBlock called
 // directly, the lockup EndBlocker is its two keeper calls), pools always keep OSMO.
 //
 // The oracle is independent of the model: expected stake per intermediary account recomputed with big.Rat
@@ -23,6 +24,7 @@ package app_test
 import (
 	"errors"
 	"fmt"
+	"math"
 	"math/big"
 	"math/rand"
 	"os"
@@ -79,6 +81,10 @@ type sfEngine struct {
 	lastNew      uint64           // id returned by the last successful lock op
 	valBurns     map[int]int64    // per validator: force-undelegations (undelegate / undelegate-and-unbond) since the last refresh
 	carry        map[string]int64 // per account on a slashed validator: whole units of excess stake the last refresh left (explained classes only)
+	// fault injection (superfluid_fault_test.go)
+	powLimit     *big.Int          // 2^63 * PowerReduction: a validator whose tokens reach it cannot be written to the power index (Int64 panics)
+	blockedTopup map[string]string // per account: a top-up since the last refresh whose mint the validator could not take (reason)
+	noEmit       bool              // oracle-only tail of a history: ops run on the real keepers and through every oracle, no op line for the model
 }
 
 // one step of a directed macro: the op is computed when the step is executed (it may refer to locks the macro
@@ -101,11 +107,13 @@ type sfOp struct {
 	dt     int64
 	moves  int
 	// slash: validator v, consensus power, fraction (Dec string); move: pool d, factor num/den, down
-	power int64
-	frac  string
-	num   int64
-	den   int64
-	down  bool
+	power  int64
+	frac   string
+	num    int64
+	den    int64
+	down   bool
+	full   bool                // slash: a deliberate 100 % slash (fault classes); the 60 % guard does not apply
+	refill map[uint64]*big.Int // slashrefill: top-up of every lock the 100 % slash emptied
 }
 
 func (e *sfEngine) ctx() sdk.Context { return e.h.Ctx }
@@ -344,6 +352,10 @@ func (e *sfEngine) locks() []sfLock {
 		if err != nil {
 			continue
 		}
+		if len(l.Coins) == 0 { // emptied by a 100 % slash (only inside a composite op / a discarded branch)
+			out = append(out, sfLock{id: id, owner: e.ownerIdx(l.Owner), denom: -1, amount: new(big.Int), dur: int64(l.Duration / time.Second), end: e.rel(l.EndTime), unl: l.IsUnlocking()})
+			continue
+		}
 		out = append(out, sfLock{id: id, owner: e.ownerIdx(l.Owner), denom: e.denomIdx(l.Coins[0].Denom), amount: l.Coins[0].Amount.BigInt(),
 			single: len(l.Coins) == 1, dur: int64(l.Duration / time.Second), end: e.rel(l.EndTime), unl: l.IsUnlocking()})
 	}
@@ -578,6 +590,8 @@ func (e *sfEngine) oracle(op string, line string, v sfView, prev sfView, repBefo
 	}
 	// --- stake
 	half := big.NewRat(1, 2)
+	valsNow := e.validators()
+	blockedAny := false
 	for _, a := range accs {
 		total := new(big.Int)
 		n := 0
@@ -600,6 +614,32 @@ func (e *sfEngine) oracle(op string, line string, v sfView, prev sfView, repBefo
 		}
 		diff := new(big.Int).Abs(new(big.Int).Sub(got, want))
 		e.o.Count(fmt.Sprintf("stake.locks.%d", min(n, 4)))
+		// fault-injection regimes (superfluid_fault_test.go): the stake is short because the mint CANNOT be made — the
+		// validator has no tokens but outstanding shares (staking refuses every delegation), or the missing amount
+		// would take it to 2^63 power units (staking panics, the branch is rolled back).  Recorded as an observation:
+		// C11 quantifies over neither 100 % slashes nor locks worth more than 9.2e18 OSMO; the supply, marker and
+		// atomicity clauses are checked in these regimes like everywhere else.
+		if a.v >= 0 && a.v < len(valsNow) && want.Cmp(got) > 0 {
+			why := ""
+			vl := valsNow[a.v]
+			slack := big.NewInt(int64(n + e.opsSinceEp[a.key] + 2))
+			if vl.tokens.Sign() == 0 && vl.shares.Sign() > 0 {
+				why = "invalid-exrate"
+			} else if new(big.Int).Add(new(big.Int).Add(vl.tokens, new(big.Int).Sub(want, got)), slack).Cmp(e.powLimit) >= 0 {
+				why = "power-overflow"
+			} else if b, ok := e.blockedTopup[a.key]; ok {
+				why = b // a mint since (or by) the last refresh did not fit, although the whole difference would fit now: the next refresh mints it
+			}
+			if why != "" {
+				blockedAny = true
+				ph := "between-refreshes"
+				if op == "epoch" && e.refreshedAll {
+					ph = "after-refresh"
+				}
+				e.o.Count("outside-quantifier.stake:mint-blocked:" + why + ":" + ph)
+				continue
+			}
+		}
 		if op == "epoch" && e.refreshedAll {
 			if a.v < 0 || a.v >= len(e.vals)-1 {
 				continue // no such validator: the refresh skips the account
@@ -790,6 +830,10 @@ func (e *sfEngine) oracle(op string, line string, v sfView, prev sfView, repBefo
 		if perLock.Cmp(perAcc) == 0 {
 			cls = "stake-drift"
 		}
+		if blockedAny {
+			e.o.Count("outside-quantifier.invariant:total-superfluid-delegation:mint-blocked")
+			return
+		}
 		e.o.Fail("invariant:total-superfluid-delegation:"+cls, fmt.Sprintf("per-lock sum %s, per-account sum %s, staked %s: %s | %s", perLock, perAcc, staked, strings.TrimSpace(strings.ReplaceAll(strings.ReplaceAll(msg, "\n", " "), "\t", " ")), line))
 	}
 }
@@ -811,6 +855,7 @@ func (e *sfEngine) setup(t *testing.T, su sfSetup) {
 		t.Fatal(err)
 	}
 	e.bond, e.ub, e.ubs = sp.BondDenom, sp.UnbondingTime, int64(sp.UnbondingTime/time.Second)
+	e.powLimit = new(big.Int).Mul(pow2(63), h.App.StakingKeeper.PowerReduction(ctx).BigInt())
 	e.t0 = ctx.BlockTime()
 	durs := h.App.IncentivesKeeper.GetLockableDurations(ctx)
 	h.App.IncentivesKeeper.SetLockableDurations(ctx, append(durs, e.ub))
@@ -880,8 +925,8 @@ func (e *sfEngine) setup(t *testing.T, su sfSetup) {
 		ks = append(ks, fmt.Sprintf("%s:%s", vl.tokens, vl.shares))
 	}
 	obs, _ := e.observe()
-	o.Emit(fmt.Sprintf("superfluid reset %d %d %s %s %s %d %d v=%s a=%s d=%s k=%s", e.now(), e.ubs, e.rf, sup, off, h.App.IncentivesKeeper.GetLastGaugeID(ctx),
-		h.App.LockupKeeper.GetLastLockID(ctx), strings.Join(vs, ","), strings.Join(as, ","), strings.Join(ds, ","), strings.Join(ks, ",")), "ok "+obs, false)
+	o.Emit(fmt.Sprintf("superfluid reset %d %d %s %s %s %d %d v=%s a=%s d=%s k=%s p=%s", e.now(), e.ubs, e.rf, sup, off, h.App.IncentivesKeeper.GetLastGaugeID(ctx),
+		h.App.LockupKeeper.GetLastLockID(ctx), strings.Join(vs, ","), strings.Join(as, ","), strings.Join(ds, ","), strings.Join(ks, ","), h.App.StakingKeeper.PowerReduction(ctx)), "ok "+obs, false)
 }
 
 func runSuperfluid(t *testing.T, seed int64, n int, dir string) {
@@ -895,7 +940,7 @@ func runSuperfluid(t *testing.T, seed int64, n int, dir string) {
 	}
 	newEngine := func() *sfEngine {
 		h.Reset()
-		return &sfEngine{h: h, o: o, r: r, undeleg: map[uint64]int64{}, opsSinceEp: map[string]int{}, slashedVal: map[int]bool{}, slashSinceEp: map[int]bool{}, carry: map[string]int64{}, valBurns: map[int]int64{}}
+		return &sfEngine{h: h, o: o, r: r, undeleg: map[uint64]int64{}, opsSinceEp: map[string]int{}, slashedVal: map[int]bool{}, slashSinceEp: map[int]bool{}, carry: map[string]int64{}, valBurns: map[int]int64{}, blockedTopup: map[string]string{}}
 	}
 	// ---- history 0: the scripted witness of the recorded findings (multiplier 2.5, risk factor 0.5)
 	{
@@ -930,14 +975,16 @@ func runSuperfluid(t *testing.T, seed int64, n int, dir string) {
 	for done < n {
 		e := newEngine()
 		switch c := r.Intn(20); {
-		case c < 6:
+		case c < 5:
 			e.class = "random"
-		case c < 11:
+		case c < 9:
 			e.class = "dust"
-		case c < 17:
+		case c < 14:
 			e.class = "slash"
-		default:
+		case c < 16:
 			e.class = "mixed"
+		default:
+			e.class = "fault"
 		}
 		rfs := []string{"0.5", "0", "0.25", "0.333333333333333333", "0.05", "0.999999999999999999", "1", "0.5"}
 		su := sfSetup{rf: rfs[r.Intn(len(rfs))], nv: 2 + r.Intn(2), clAt: -1}
@@ -971,6 +1018,12 @@ func runSuperfluid(t *testing.T, seed int64, n int, dir string) {
 			ms := [][2]int64{{1, 1}, {3, 2}, {2, 1}, {5, 2}, {3, 1}, {1, 1}, {7, 3}}
 			m := ms[r.Intn(len(ms))]
 			su.osmo[0] = mulShares(m[0], m[1])
+			if su.clAt == 0 {
+				su.clAt = -1
+			}
+			su.rf = []string{"0", "0.25", "0.5", "0.05", "0.333333333333333333"}[r.Intn(5)]
+		}
+		if e.class == "fault" { // pool 0 classic, a risk factor that leaves every share a value
 			if su.clAt == 0 {
 				su.clAt = -1
 			}
@@ -1070,10 +1123,25 @@ func (e *sfEngine) next() (sfOp, func(bool, uint64), bool) {
 			}
 		case "mixed":
 			if r.Intn(8) == 0 {
-				if r.Intn(2) == 0 {
+				switch r.Intn(5) {
+				case 0, 1:
 					e.planDust()
-				} else {
+				case 2, 3:
 					e.planSlashed()
+				default:
+					if r.Intn(2) == 0 {
+						e.planOverflow()
+					} else {
+						e.planZero()
+					}
+				}
+			}
+		case "fault":
+			if r.Intn(5) == 0 {
+				if r.Intn(2) == 0 {
+					e.planOverflow()
+				} else {
+					e.planZero()
 				}
 			}
 		}
@@ -1576,6 +1644,7 @@ func (e *sfEngine) do(op sfOp) (succeeded bool, retID uint64, emitted bool) {
 		}
 		coin := sdk.NewCoin(denom, osmomath.NewIntFromBigInt(op.amt))
 		h.FundAcc(snd, sdk.NewCoins(coin))
+		pre := e.snap(e.ctx())
 		err, pn := e.atomic(func(ctx sdk.Context) error {
 			_, err := h.App.LockupKeeper.AddTokensToLockByID(ctx, op.id, snd, coin)
 			return err
@@ -1585,7 +1654,16 @@ func (e *sfEngine) do(op sfOp) (succeeded bool, retID uint64, emitted bool) {
 		if err == nil && !pn && conn[op.id] != "" {
 			touch(conn[op.id])
 		}
+		if err == nil && !pn {
+			// the hook (AfterAddTokensToLock -> IncreaseSuperfluidDelegation) logs and ignores every error of the mint branch
+			mint := new(big.Int)
+			if l, ok := lock0[op.id]; ok && conn[op.id] != "" && l.denom >= 0 {
+				mint = e.osmoValue(e.mult(e.pools[l.denom]), op.amt)
+			}
+			e.atomicityTopup(pre, e.snap(e.ctx()), conn[op.id], mint, line)
+		}
 	case "delegate":
+		pre := e.snap(e.ctx())
 		err, pn := e.atomic(func(ctx sdk.Context) error {
 			_, err := sms.SuperfluidDelegate(ctx, &sftypes.MsgSuperfluidDelegate{Sender: snd.String(), LockId: op.id, ValAddr: e.vals[op.v].String()})
 			return err
@@ -1593,6 +1671,7 @@ func (e *sfEngine) do(op sfOp) (succeeded bool, retID uint64, emitted bool) {
 		line = fmt.Sprintf("superfluid delegate %d %d %d", op.snd, op.id, op.v)
 		res = result(err, pn, nil)
 		if err == nil && !pn {
+			e.moved("successful-branch", "delegate", pre, e.snap(e.ctx()), line)
 			touch(fmt.Sprintf("%d.%d", lock0[op.id].denom, op.v))
 			delete(e.undeleg, op.id)
 			// self-test of the oracle (never set by ./check): emulate a defective delegation path
@@ -1605,6 +1684,7 @@ func (e *sfEngine) do(op sfOp) (succeeded bool, retID uint64, emitted bool) {
 			}
 		}
 	case "undelegate":
+		pre := e.snap(e.ctx())
 		err, pn := e.atomic(func(ctx sdk.Context) error {
 			_, err := sms.SuperfluidUndelegate(ctx, &sftypes.MsgSuperfluidUndelegate{Sender: snd.String(), LockId: op.id})
 			return err
@@ -1612,6 +1692,7 @@ func (e *sfEngine) do(op sfOp) (succeeded bool, retID uint64, emitted bool) {
 		line = fmt.Sprintf("superfluid undelegate %d %d", op.snd, op.id)
 		res = result(err, pn, nil)
 		if err == nil && !pn {
+			e.moved("successful-branch", "undelegate", pre, e.snap(e.ctx()), line)
 			touch(conn[op.id])
 			burnt(conn[op.id])
 			e.undeleg[op.id] = e.now()
@@ -1632,6 +1713,7 @@ func (e *sfEngine) do(op sfOp) (succeeded bool, retID uint64, emitted bool) {
 		res = result(err, pn, nil)
 	case "undelunbond":
 		var nid uint64
+		pre := e.snap(e.ctx())
 		err, pn := e.atomic(func(ctx sdk.Context) error {
 			resp, err := sms.SuperfluidUndelegateAndUnbondLock(ctx, &sftypes.MsgSuperfluidUndelegateAndUnbondLock{Sender: snd.String(), LockId: op.id, Coin: sdk.NewCoin(e.pools[0].denom, osmomath.NewIntFromBigInt(op.amt))})
 			if resp != nil {
@@ -1643,6 +1725,7 @@ func (e *sfEngine) do(op sfOp) (succeeded bool, retID uint64, emitted bool) {
 		res = result(err, pn, &nid)
 		retID = nid
 		if err == nil && !pn {
+			e.moved("successful-branch", "undelegate-and-unbond", pre, e.snap(e.ctx()), line)
 			touch(conn[op.id])
 			touch(conn[op.id])
 			burnt(conn[op.id])
@@ -1710,12 +1793,35 @@ func (e *sfEngine) do(op sfOp) (succeeded bool, retID uint64, emitted bool) {
 		}
 		ups = append(ups, "o="+strings.Join(order, ","))
 		_, _, repBefore = e.supply()
+		pre := e.snap(e.ctx())
+		cur := map[string]*big.Int{} // what the refresh will read for every account
+		for _, a := range e.accounts() {
+			cur[a.key] = a.cur
+		}
 		err, pn := e.atomic(func(ctx sdk.Context) error {
 			h.App.SuperfluidKeeper.AfterEpochStartBeginBlock(ctx)
 			return nil
 		})
 		line = "superfluid epoch " + strings.Join(ups, " ")
 		res = result(err, pn, nil)
+		if err == nil && !pn {
+			// every error of the refresh's mint / burn branches is logged and ignored
+			want := map[string]*big.Int{}
+			for _, a := range v0.accs {
+				if a.v < 0 || a.v >= len(e.vals)-1 {
+					continue
+				}
+				total := new(big.Int)
+				for _, c := range v0.cn {
+					if l, ok := lock0[c.lock]; ok && c.key == a.key {
+						total.Add(total, l.amount)
+					}
+				}
+				want[a.key] = e.osmoValue(e.mult(e.pools[a.d]), total)
+			}
+			e.blockedTopup = map[string]string{} // (a mint the refresh itself could not make is recorded again below)
+			e.atomicityRefresh(pre, e.snap(e.ctx()), want, cur, line)
+		}
 		e.refreshedAll = err == nil && !pn
 		if e.refreshedAll {
 			e.opsSinceEp = map[string]int{}
@@ -1741,13 +1847,20 @@ func (e *sfEngine) do(op sfOp) (succeeded bool, retID uint64, emitted bool) {
 		case 2:
 			power = 1
 		case 3:
-			power++
+			if power < math.MaxInt64 {
+				power++
+			} else if op.full {
+				return false, 0, false
+			}
 		}
 		frac := osmomath.MustNewDecFromStr(op.frac)
 		powTok := h.App.StakingKeeper.TokensFromConsensusPower(e.ctx(), power)
 		want := powTok.ToLegacyDec().Mul(frac).TruncateInt()
-		if want.MulRaw(10).GT(val.Tokens.MulRaw(6)) {
-			o.Count("slash.skipped-too-large") // a (near) 100% slash empties locks: outside the modelled regime
+		if op.full && len(e.markedOn(op.v)) > 0 {
+			return false, 0, false // a 100 % slash with marked locks is the composite op `slashrefill`
+		}
+		if !op.full && want.MulRaw(10).GT(val.Tokens.MulRaw(6)) {
+			o.Count("slash.skipped-too-large") // a (near) 100% slash empties locks: only as the composite op `slashrefill` (fault classes)
 			return false, 0, false
 		}
 		// concentrated-share locks: whether the position-level preparation (prepareConcentratedLockForSlash:
@@ -1793,6 +1906,104 @@ func (e *sfEngine) do(op sfOp) (succeeded bool, retID uint64, emitted bool) {
 			e.slashSinceEp[op.v] = true
 			repBefore = new(big.Int).Sub(repBefore, burned)
 			o.Count("slash.frac." + op.frac)
+			if op.full {
+				o.Count("slash.full.no-marked-lock")
+			}
+		}
+	case "slashrefill":
+		// composite (fault classes): the REAL StakingKeeper.Slash with fraction 1 and a power above the validator's — every
+		// lock marked for the validator is emptied (removeTokensFromLock leaves a lock without coins) — and, in the same
+		// engine op, AddTokensToLockByID for every emptied lock by its owner: for the locks that are still delegated the
+		// hook tries to mint to a validator without tokens, staking refuses (ErrDelegatorShareExRateInvalid) inside the
+		// all-or-nothing branch, the hook logs it, the top-up stands.  The model sees ONE op whose result has no empty lock.
+		val, verr := h.App.StakingKeeper.GetValidator(e.ctx(), e.vals[op.v])
+		if verr != nil || val.Tokens.IsZero() {
+			return false, 0, false
+		}
+		consAddr, cerr := val.GetConsAddr()
+		if cerr != nil {
+			panic(cerr)
+		}
+		power := val.Tokens.Quo(h.App.StakingKeeper.PowerReduction(e.ctx())).Int64()
+		if power == math.MaxInt64 {
+			return false, 0, false // (the slash could not take everything)
+		}
+		power++
+		frac := osmomath.OneDec()
+		powTok := h.App.StakingKeeper.TokensFromConsensusPower(e.ctx(), power)
+		var ids []uint64
+		for id := range op.refill {
+			ids = append(ids, id)
+		}
+		sort.Slice(ids, func(i, j int) bool { return ids[i] < ids[j] })
+		marked := e.markedOn(op.v)
+		if len(marked) != len(ids) {
+			return false, 0, false // the set of marked locks changed since the macro planned the refill
+		}
+		var tl []string
+		for _, id := range ids {
+			l, ok := lock0[id]
+			if !ok || l.denom < 0 || l.owner < 0 {
+				return false, 0, false
+			}
+			tl = append(tl, fmt.Sprintf("%d:%s", id, op.refill[id]))
+			h.FundAcc(e.owners[l.owner], sdk.NewCoins(sdk.NewCoin(e.pools[l.denom].denom, osmomath.NewIntFromBigInt(op.refill[id]))))
+		}
+		burned := new(big.Int)
+		var mid, post sfSnap
+		leftTrace := []string{}
+		err, pn := e.atomic(func(ctx sdk.Context) error {
+			b, err := h.App.StakingKeeper.Slash(ctx, consAddr, ctx.BlockHeight(), power, frac)
+			if err != nil {
+				return err
+			}
+			burned = b.BigInt()
+			for _, id := range ids {
+				l, lerr := h.App.LockupKeeper.GetLockByID(ctx, id)
+				if lerr != nil || len(l.Coins) != 0 {
+					return fmt.Errorf("lock %d not emptied by the 100%% slash: %v %v", id, l, lerr)
+				}
+			}
+			mid = e.snap(ctx)
+			for _, id := range ids {
+				lk := lock0[id]
+				if _, err := h.App.LockupKeeper.AddTokensToLockByID(ctx, id, e.owners[lk.owner], sdk.NewCoin(e.pools[lk.denom].denom, osmomath.NewIntFromBigInt(op.refill[id]))); err != nil {
+					return err
+				}
+			}
+			post = e.snap(ctx)
+			leftTrace = mid.diff(post, true)
+			return nil
+		})
+		line = fmt.Sprintf("superfluid slashrefill %d %s %s x= t=%s", op.v, powTok, frac.BigInt(), strings.Join(tl, ","))
+		res = result(err, pn, nil)
+		if res == "ok" {
+			res = "ok " + burned.String()
+		}
+		if err == nil && !pn {
+			e.slashedVal[op.v] = true
+			e.slashSinceEp[op.v] = true
+			repBefore = new(big.Int).Sub(repBefore, burned)
+			o.Count("slash.full.refilled")
+			o.Count(fmt.Sprintf("slash.full.refilled.locks.%d", min(len(ids), 4)))
+			// the top-ups after the slash: every hook mint had to fail (validator without tokens), none may leave a trace
+			if mid.valTok[op.v].Sign() != 0 || mid.valSh[op.v].Sign() <= 0 {
+				o.Count("slash.full.validator-not-invalid") // no outstanding shares: the rate is reset, mints work again
+			} else {
+				for _, w := range leftTrace {
+					o.Fail("atomicity:failed-branch-left-trace:"+w+":topup-hook", fmt.Sprintf("top-ups after a 100%% slash: before {%s} after {%s} | %s", mid, post, line))
+				}
+				for _, id := range ids {
+					if conn[id] != "" {
+						o.Count("atomic.topup.failed-branch.invalid-exrate")
+					}
+				}
+			}
+			if !sfModelRefill {
+				e.noEmit = true // the model has no composite op: the rest of the history is an oracle-only tail
+			}
+		} else {
+			o.Count("slash.full.refill-failed")
 		}
 	case "exportimport":
 		// the REAL ExportGenesis (through the JSON codec), every key of the superfluid store deleted, the risk factor
@@ -1875,8 +2086,18 @@ func (e *sfEngine) do(op sfOp) (succeeded bool, retID uint64, emitted bool) {
 			delete(e.undeleg, id)
 		}
 	}
-	o.Emit(line, res+" "+obs, op.kind != "advance")
-	o.Count("op." + op.kind + "." + strings.SplitN(res, " ", 2)[0])
+	if e.noEmit {
+		o.Count("tail.op." + op.kind + "." + strings.SplitN(res, " ", 2)[0])
+	} else {
+		o.Emit(line, res+" "+obs, op.kind != "advance")
+		o.Count("op." + op.kind + "." + strings.SplitN(res, " ", 2)[0])
+	}
 	e.oracle(op.kind, line, v, v0, repBefore)
+	if e.r.Intn(8) == 0 {
+		e.faultProbe(line)
+	}
 	return strings.HasPrefix(res, "ok"), retID, true
 }
+
+// sfModelRefill: the Lean model has the composite op `slashrefill` (Model/SuperfluidStaking.lean `slashRefillS`).
+const sfModelRefill = true
